@@ -24,7 +24,8 @@ def StepOk (cfg : Cfg) (s : Str) (st0 : State) : StepRes → Prop
   | .cont st' => Inv cfg s st' ∧ st0.pos < st'.pos
   | .outOfFuel => False
   | .brk _ => False
-  | _ => True
+  | .err _ _ _ st' => PrefixOk cfg s st'.toks
+  | .assertion _ => True
 
 theorem runMatchers_ok (s : Str) (ms : List (State → MRes))
     (hms : ∀ m ∈ ms, ∀ st, Inv cfg s st → st.pos < s.length → MOk cfg s st (m st)) :
@@ -49,7 +50,7 @@ theorem runMatchers_ok (s : Str) (ms : List (State → MRes))
     | yes st' =>
       rw [hr] at hm
       exact ⟨hm.1, by have := hm.2; omega⟩
-    | err k l c st' => trivial
+    | err k l c st' => rw [hr] at hm; exact hm
     | outOfFuel => rw [hr] at hm; exact hm
 
 /-- `match_text` always answers: the `raise MakoException("assertion failed")` of `parse` is dead code -/
@@ -126,6 +127,8 @@ structure LoopOk (cfg : Cfg) (s : Str) (st : State) (it : Nat) (r : Result) : Pr
   iters : r.iters ≤ it + (s.length + 1 - st.pos)
   chain : r.outcome = .ok → Chain r.toks 0 s.length
   toks : r.outcome = .ok → ∀ t ∈ r.toks, TokOk cfg s t
+  /-- whatever the outcome (also a syntax error): the tokens created so far tile a prefix of the source -/
+  pre : PrefixOk cfg s r.toks
 
 theorem lexLoop_ok (cfg : Cfg) (s : Str) :
     ∀ (fuel : Nat) (st : State) (it : Nat), Inv cfg s st → s.length + 2 ≤ fuel + st.pos →
@@ -148,7 +151,7 @@ theorem lexLoop_ok (cfg : Cfg) (s : Str) :
           cases hend
           have hp : st.pos = s.length := by omega
           have ft := finish_toks ({ (advance s st st.pos) with pos := s.length + 1 }) (it + 1)
-          refine ⟨ft.2.2.1, ft.2.2.2, by rw [ft.2.1]; omega, ?_, ?_⟩
+          refine ⟨ft.2.2.1, ft.2.2.2, by rw [ft.2.1]; omega, ?_, ?_, ?_⟩
           · intro _
             rw [ft.1]
             show Chain st.toks 0 s.length
@@ -156,6 +159,8 @@ theorem lexLoop_ok (cfg : Cfg) (s : Str) :
           · intro _
             rw [ft.1]
             exact hinv.toks
+          · rw [ft.1]
+            exact hinv.prefixOk
         · cases hend
       · rename_i hend
         have hlt : st.pos < s.length := by
@@ -169,11 +174,12 @@ theorem lexLoop_ok (cfg : Cfg) (s : Str) :
         · rename_i st' hr
           rw [hr] at hstep
           have := ih st' (it + 1) hstep.1 (by have := hstep.2; omega)
-          exact ⟨this.fuel, this.noAssert, by have := this.iters; have := hstep.2; omega, this.chain, this.toks⟩
+          exact ⟨this.fuel, this.noAssert, by have := this.iters; have := hstep.2; omega, this.chain, this.toks, this.pre⟩
         · rename_i st' hr
           rw [hr] at hstep; exact absurd hstep (by simp [StepOk])
         · rename_i k l c st' hr
-          refine ⟨by simp, ?_, by simp only; omega, by simp, by simp⟩
+          have hpre : PrefixOk cfg s st'.toks := by rw [hr] at hstep; exact hstep
+          refine ⟨by simp, ?_, by simp only; omega, by simp, by simp, hpre⟩
           -- an error raised by a matcher is never the assertion
           intro hk
           simp only [Outcome.error.injEq] at hk
